@@ -59,6 +59,8 @@ class Check(object):
 
     # -- recording ---------------------------------------------------------
     def ob(self, rule, site, verdict, detail, **kw):
+        if rule is None:
+            return None      # clause not claimed under this property
         o = Obligation(rule, site, verdict, detail, **kw)
         self.obligations.append(o)
         return o
